@@ -4247,8 +4247,8 @@ func ruleRevalidateCoversAdmission(c *Ctx) {
 			}
 			hit := false
 			for _, k := range keys {
-				if FnKey(e.Callee.Fn) == k {
-					hit = true
+				if FnKey(e.Callee.Fn) == k || callsWithin(g, e.Callee.Fn, k, 2) {
+					hit = true // directly, or through a helper of the filter (two levels)
 				}
 			}
 			if !hit {
@@ -4282,25 +4282,43 @@ func ruleRevalidateCoversAdmission(c *Ctx) {
 		}
 		return true
 	})
-	for _, e := range nd.Out {
-		if e.Kind != "static" && e.Kind != "iface" {
-			continue
-		}
-		callee := e.Callee.Fn
+	var oblige func(callee *ssa.Function, depth int)
+	oblige = func(callee *ssa.Function, depth int) {
 		k := FnKey(callee)
 		if seen[k] || skip[k] != "" || !fnInModule(callee) || !readsState(callee) {
-			continue
-		}
-		if ci, ok := e.Site.(ssa.CallInstruction); ok && ci.Common() != nil && nested[ci.Pos()] {
-			continue
+			return
 		}
 		seen[k] = true
+		sites := sitesOf(append([]string{k}, equiv[k]...))
+		if len(sites) == 0 && depth < 2 {
+			// a helper of the admission function (checks moved into a function of their own): its state-reading callees
+			// are the checks - unless it has none, in which case it is a check itself
+			var subs []*ssa.Function
+			if hn := g.Nodes[callee]; hn != nil && pkgOfFn(callee) == "pkg/core" {
+				for _, e := range hn.Out {
+					if (e.Kind == "static" || e.Kind == "iface") && fnInModule(e.Callee.Fn) && readsState(e.Callee.Fn) && skip[FnKey(e.Callee.Fn)] == "" {
+						subs = append(subs, e.Callee.Fn)
+					}
+				}
+			}
+			allKnown := len(subs) > 0
+			for _, sfn := range subs {
+				if len(sitesOf(append([]string{FnKey(sfn)}, equiv[FnKey(sfn)]...))) == 0 {
+					allKnown = false
+				}
+			}
+			if allKnown {
+				for _, sfn := range subs {
+					oblige(sfn, depth+1)
+				}
+				return
+			}
+		}
 		n++
 		key := "revalidate." + shortSym(k)
-		sites := sitesOf(append([]string{k}, equiv[k]...))
 		if len(sites) == 0 {
 			c.Fail(key, c.P.Pos(rev.Decl.Pos()), fmt.Sprintf("verifyAndPoolTx admits a transaction only after %s, which reads chain state; IsTxStillRelevant, the filter the pool is run through after every block, never repeats it: a pooled transaction that a later block invalidates on this count stays pooled, gets proposed and is accepted without verification by the nodes that have it pooled while every other node rejects the block", k))
-			continue
+			return
 		}
 		var targets []site
 		for _, r := range oks {
@@ -4324,8 +4342,44 @@ func ruleRevalidateCoversAdmission(c *Ctx) {
 			c.Fail(key, c.P.Pos(sites[0].node.Pos()), fmt.Sprintf("IsTxStillRelevant repeats %s only on some of the paths that answer true%s: the state this check reads can change at any block, and a pooled transaction that no longer passes it stays pooled, is proposed and is rejected by every node that has to verify it", k, extra), path...)
 		}
 	}
+	for _, e := range nd.Out {
+		if e.Kind != "static" && e.Kind != "iface" {
+			continue
+		}
+		if ci, ok := e.Site.(ssa.CallInstruction); ok && ci.Common() != nil && nested[ci.Pos()] {
+			continue
+		}
+		oblige(e.Callee.Fn, 0)
+	}
 	c.Floor("state-dependent admission checks", n, 6)
 	_ = fa
+}
+
+func pkgOfFn(fn *ssa.Function) string {
+	if fn == nil || fn.Pkg == nil {
+		return ""
+	}
+	return pkgRel(fn.Pkg.Pkg)
+}
+
+// callsWithin: does from reach a function with key k over at most depth call edges?
+func callsWithin(g *MRG, from *ssa.Function, k string, depth int) bool {
+	if depth == 0 || from == nil {
+		return false
+	}
+	nd := g.Nodes[from]
+	if nd == nil {
+		return false
+	}
+	for _, e := range nd.Out {
+		if e.Kind != "static" && e.Kind != "iface" {
+			continue
+		}
+		if FnKey(e.Callee.Fn) == k || callsWithin(g, e.Callee.Fn, k, depth-1) {
+			return true
+		}
+	}
+	return false
 }
 
 // OKReturnsTrue: the return sites of a bool function that may return true (anything but the literal false).
